@@ -1571,3 +1571,82 @@ func init() {
 		}),
 	)
 }
+
+func init() {
+	addPackages("C14", "system/dapp/coins/executor")
+	extend("C14", "R14h (added after a seeded change was missed): the coins executor's received-total counter is written back to the block's local cache before it is returned, like the address-index counter (R14f) — block removal does not store the returned records between transactions, so a second transfer to the same address in one block would otherwise start from the stale total.",
+		rule("R14h", "coins received-total: written back on add and on remove", 1, func(r *Run) {
+			fn := "system/dapp/coins/executor.updateAddrReciver"
+			core.Dominated{Fn: fn, Spec: &core.FlowSpec{Calls: []core.CallGuard{{Fact: "written-back", Callee: core.Names("system/dapp/coins/executor.setAddrReciver", "common/db.KV.Set"), Pass: core.OErrNil, Idx: -1, NoArgDeps: true,
+				ArgOK: func(c *core.Ctx, call *ast.CallExpr) bool {
+					if sel, ok := ast.Unparen(call.Fun).(*ast.SelectorExpr); ok && core.IsObj("param:0")(c, sel.X) {
+						return true // cachedb.Set(…)
+					}
+					return len(call.Args) >= 1 && core.IsObj("param:0")(c, call.Args[0])
+				}}}}, Sink: core.SuccessReturn(-1), Need: []Fact{"written-back"}, Min: 1}.Check(r)
+		}),
+	)
+	extend("C23", "R23g (added after a seeded change was missed): inside the per-sender loop every transaction that is emitted is the one found under the running nonce, and the running nonce starts at the sender's current nonce — there is no path that emits a sender's transaction without that lookup.",
+		rule("R23g", "per-sender emission only through the running-nonce lookup", 1, func(r *Run) {
+			f := r.Fn(mpm + "sortEthSignTyTx")
+			if f == nil {
+				return
+			}
+			c := f.Ctx()
+			n := 0
+			for _, lp := range core.LoopsIn(f) {
+				rs, ok := lp.(*ast.RangeStmt)
+				if !ok {
+					continue
+				}
+				if _, isMap := c.Info.TypeOf(rs.X).Underlying().(*types.Map); !isMap {
+					continue
+				}
+				// only the loop over senders: its value is itself a map (nonce → tx)
+				if vt, ok := c.Info.TypeOf(rs.X).Underlying().(*types.Map); !ok {
+					continue
+				} else if _, inner := vt.Elem().Underlying().(*types.Map); !inner {
+					continue
+				}
+				ast.Inspect(rs.Body, func(x ast.Node) bool {
+					as, ok := x.(*ast.AssignStmt)
+					if !ok || len(as.Lhs) != 1 || len(as.Rhs) != 1 {
+						return true
+					}
+					call, ok := as.Rhs[0].(*ast.CallExpr)
+					if !ok || !core.IsBuiltinCall(c.Info, call, "append") || len(call.Args) != 2 || core.CanonExpr(c, as.Lhs[0]) != core.CanonExpr(c, call.Args[0]) {
+						return true
+					}
+					n++
+					label := fmt.Sprintf("%s: emission #%d inside the per-sender loop is the transaction stored under the running nonce", f.Name, n)
+					good := false
+					if id, ok := ast.Unparen(call.Args[1]).(*ast.Ident); ok {
+						for _, d := range c.DefsOf(c.Info.ObjectOf(id)) {
+							if d.Rhs == nil {
+								continue
+							}
+							if ix, ok := ast.Unparen(d.Rhs).(*ast.IndexExpr); ok {
+								if nid, ok := ast.Unparen(ix.Index).(*ast.Ident); ok {
+									for _, nd := range c.DefsOf(c.Info.ObjectOf(nid)) {
+										if nd.Rhs != nil && core.FromCall(0, mpm+"getCurrentNonce")(c, nd.Rhs) {
+											good = true
+										}
+									}
+								}
+							}
+						}
+					}
+					if good {
+						r.OK(label, r.W.Pos(as.Pos()), "txs[nonce] with nonce running from getCurrentNonce(from)")
+					} else {
+						r.Fail(label, r.W.Pos(as.Pos()), "a sender's transaction is emitted without being looked up under a nonce that runs from the sender's current nonce: a transaction whose nonce is ahead of (or behind) the account's nonce reaches the block producer")
+					}
+					return true
+				})
+			}
+			if n == 0 {
+				r.Fail(f.Name+": emissions inside the per-sender loop", r.W.Pos(f.Node().Pos()), "none found (anchor changed)")
+			}
+		}),
+	)
+}
